@@ -108,6 +108,15 @@ Theorem C11_client_loops_recover_directly :
 Proof. exact client_loop_defer_is_direct. Qed.
 Print Assumptions C11_client_loops_recover_directly.
 
+(* Panics of the service function, of an invoke plugin and of the missing-method handler are
+   stopped by Service.Process' own closure on every transport and pool setting: they become
+   the call's error before the IO plugins and the transport handler see anything unusual. *)
+Theorem C11_invoke_level_panics_stop_in_process : forall c : cell,
+  applicable c = true -> c_side c = Server -> invoke_level (c_fault c) = true ->
+  recovering_frame table c = Some "core.Service.Process$1" /\ verdict_of table c = CallError.
+Proof. exact invoke_level_in_process. Qed.
+Print Assumptions C11_invoke_level_panics_stop_in_process.
+
 (* ------------------------------------------------------------------ the property *)
 
 (* EVERY fault cell — 7 transports x {server, client} x pool off/on x 13 fault classes, as far
